@@ -46,7 +46,7 @@ type MakeList struct {
 func (f *MakeList) Call(s *slip.Scope, args slip.List, depth int) slip.Object {
 	slip.CheckArgCount(s, depth, f, args, 1, 3)
 	size, ok := args[0].(slip.Fixnum)
-	if !ok || size < 0 {
+	if !ok || size < 0 || slip.ArrayMaxDimension < size {
 		slip.TypePanic(s, depth, "size", args[0], "fixnum")
 	}
 	ie, _ := slip.GetArgsKeyValue(args[1:], slip.Symbol(":initial-element"))
